@@ -329,6 +329,9 @@ fn file_tok(f: &raindb::verif::FileDump, entries: Option<&Vec<raindb::verif::Ent
         entries.map_or("_".to_string(), |e| ents_tok(e))
     )
 }
+pub fn file_tok_pub(f: &raindb::verif::FileDump) -> String {
+    file_tok(f, None)
+}
 pub fn levels_tok(levels: &[Vec<raindb::verif::FileDump>], entries: &BTreeMap<u64, Vec<raindb::verif::Entry>>) -> String {
     levels
         .iter()
